@@ -173,6 +173,12 @@ func newNTSSCIONWorld(r *simcore.Run, nlisten int) *ntsSCIONWorld {
 	var segs []int
 	if tp.Bool(2, 3, "path") {
 		segs = []int{2 + tp.Intn(5, "h")}
+		if tp.Bool(1, 3, "long-path") {
+			// three segments, six to nine hops: with the SCION and UDP headers a request at pool
+			// level 1 then exceeds 1280 bytes on the wire, the NTS packet inside it does not
+			segs = []int{2 + tp.Intn(2, "h1"), 2 + tp.Intn(2, "h2"), 2 + tp.Intn(2, "h3")}
+			r.Probe("scion-path-of-three-segments")
+		}
 	}
 	w.path = w.mkPath(0, segs, 1, scCliIA, scSrvIA)
 	return w
